@@ -223,7 +223,14 @@ def gradients_vs_finite_differences():
              ("final-time occupation from a non-normalised initial state", occ_loss([1.0], unnorm), ("omega",), None),
              ("energy", energy_loss, ("omega", "delta"), "F30"),
              ("energy", energy_loss, ("phi",), "F29")]
-    for label, loss, wrt, known in cases:
+    # an idle first step (all amplitudes exactly zero) from the basis state |gg>: H|gg> = 0 exactly, so the forward
+    # Krylov space and the backward Lanczos recursion both break down with a residual that is exactly zero
+    idle = dict(base, omega=base["omega"].clone())
+    idle["omega"][0, :] = 0
+    cases = [(label, loss, wrt, known, base) for label, loss, wrt, known in cases]
+    cases.append(("final-time occupation, idle first step", occ_loss([1.0]), ("delta", "phi"), None, idle))
+    cases.append(("occupation at intermediate times, idle first step", occ_loss([1 / 3, 1.0]), ("delta",), None, idle))
+    for label, loss, wrt, known, base in cases:
         for name in wrt:
             where = f"d({label})/d({name})"
             try:
